@@ -70,6 +70,7 @@ def configs():
     add("linked", ["-a", "lk=ACGT...GGGG", "-a", f"a2={A2}", "--times", "2", "-o", "{d}/out.fq"])
     add("quality-polya", ["-q", "10,15", "--poly-a", "--trim-n", "--max-n", "2", "--max-ee", "1.5", "--discard-casava",
                           "-a", f"a1={A1}", "-o", "{d}/out.fq"])
+    add("interleaved-fasta", ["--interleaved", "-a", f"a1={A1}", "-A", f"b2={A2}", "-o", "{d}/out.fa"], layout="interleaved", fmt="fasta")
     add("fasta-input", ["-a", f"a1={A1}", "--action", "lowercase", "-o", "{d}/out.fa"], fmt="fasta")
     add("mask-rename", ["-g", "f1=ACGTAC", "-a", f"a1={A1}", "--action", "mask", "--times", "2",
                         "--rename", "{{id}} {{adapter_name}} {{comment}}", "-o", "{d}/out.fq"])
